@@ -516,7 +516,7 @@ RULE = (
     "bucketed 0/1/2-5/6+, whether the loop retired the trigger, whether the data starts off the bar grid) in which at "
     "least one firing is denoted or the trigger was retired"
 )
-BUDGET = {"quick": {"runs": 3000, "wall": 50}, "thorough": {"runs": 150000, "wall": 1100}}
+BUDGET = {"quick": {"runs": 4000, "wall": 50}, "thorough": {"runs": 150000, "wall": 1100}}
 LEVEL = "exploration"
 ASSUMPTIONS = [
     "periods and pending delays are whole multiples of the bar interval: for other values the property's 'bars the "
